@@ -77,7 +77,7 @@ def build_daemon():
 def java_cmd(xmx="3g"):
     return ["java", "-XX:+UseParallelGC", "-Xss1g", f"-Xmx{xmx}",
             "-Dtlc2.overrides.TLCOverrides=tlc2.overrides.TLCOverrides:tlc2.overrides.QvOverrides",
-            f"-DTLA-Library={SPEC}{os.pathsep}{os.path.join(SPEC, 'trace')}{os.pathsep}{os.path.join(SPEC, 'mc')}",
+            f"-DTLA-Library={SPEC}{os.pathsep}{os.path.join(SPEC, 'trace')}{os.pathsep}{os.path.join(SPEC, 'mc')}{os.pathsep}{os.path.join(SPEC, 'tests')}",
             f"-Djava.io.tmpdir={os.path.join(OUT, 'tmp')}",
             "-cp", f"{OVR}:{TLA_JAR}:{CM_JAR}"]
 
@@ -852,6 +852,8 @@ def main():
             build_overrides()
             build_harness()
             res = Result(a.pid, a.tier, seed)
+            if a.tier == "thorough":
+                spec_tests()
             rule = CHECKS[a.pid](res)
             return finish(res, t0, rule=rule or "")
         if a.cmd == "replay":
@@ -859,6 +861,15 @@ def main():
     except ToolError as e:
         log("TOOL ERROR:", e)
         return 2
+
+
+def spec_tests():
+    """The specification's own unit tests: RFC examples as ASSUMEs (spec/tests). A false assumption is a tool error."""
+    mod = os.path.join(SPEC, "tests", "RfcExamples.tla")
+    r = run_tlc(mod, os.path.join(SPEC, "tests", "RfcExamples.cfg"), workers=1, timeout=600)
+    if "Model checking completed. No error has been found" not in r["out"]:
+        raise ToolError("spec/tests/RfcExamples: an RFC example does not hold for the specification:\n" + r["out"][-3000:])
+    log("[spec-tests] RFC examples hold")
 
 
 def setup():
@@ -872,6 +883,7 @@ def setup():
             bad += 1
     if bad:
         return 2
+    spec_tests()
     build_harness()
     log("setup ok")
     return 0
